@@ -6,6 +6,7 @@ odML XML files from version 1.0 to 1.1.
 import io
 import json
 import os
+import re
 import uuid
 import yaml
 
@@ -42,7 +43,9 @@ class VersionConverter(object):
         # Make pretty print available by resetting format
         parser = ET.XMLParser(remove_blank_text=True)
         if isinstance(self.filename, io.StringIO):
-            doc = self.filename.getvalue()
+            # lxml refuses text (as opposed to bytes) that carries an encoding
+            # declaration; the text is decoded already, the declaration is dropped.
+            doc = re.sub(r"^\s*<\?xml[^>]*\?>", "", self.filename.getvalue(), count=1)
             tree = ET.ElementTree(ET.fromstring(doc, parser))
 
         elif os.path.exists(self.filename) and os.path.getsize(self.filename) > 0:
